@@ -32,6 +32,15 @@ def opens_of(t):
     return [int(s[0]) if isinstance(s, list) else int(s) for s in t.tuning]
 
 
+def strings_of(t):
+    return len(t.tuning)
+
+
+def courses_of(t):
+    """average number of strings per course, counted here (not by the library)"""
+    return sum(len(s) if isinstance(s, list) else 1 for s in t.tuning) / float(len(t.tuning))
+
+
 def has_courses(t):
     return any(isinstance(s, list) for s in t.tuning)
 
@@ -121,19 +130,19 @@ def run(shard, ctx):
         for t in tun:
             I, D = t.instrument, t.description
             for pi in (I[:1], I[:3], I, I.lower(), I.upper(), I[:-1]):
-                for ns in (None, t.count_strings(), 3, 6):
-                    for ncs in (None, t.count_courses(), 1, 2):
+                for ns in (None, strings_of(t), 3, 6):
+                    for ncs in (None, courses_of(t), 1, 2):
                         st, rs = ctx.call(TU.get_tunings, pi, ns, ncs)
                         ok = st == "ok" and isinstance(rs, list) and all(
-                            r.instrument.upper().startswith(pi.upper()) and (ns is None or r.count_strings() == ns) and
-                            (ncs is None or r.count_courses() == ncs) for r in rs)
+                            r.instrument.upper().startswith(pi.upper()) and (ns is None or strings_of(r) == ns) and
+                            (ncs is None or courses_of(r) == ncs) for r in rs)
                         ctx.check("lookup: get_tunings returns only tunings satisfying all given constraints", ok,
                                   {"instrument": pi, "strings": ns, "courses": ncs}, None,
                                   [tname(r) for r in rs][:4] if st == "ok" else repr(rs), mechanism="get_tunings")
                         # completeness for exact instrument names: every matching registered tuning is listed
                         if st == "ok" and pi.upper() == I.upper():
-                            want = [x for x in tun if x.instrument.upper() == I.upper() and (ns is None or x.count_strings() == ns)
-                                    and (ncs is None or x.count_courses() == ncs)]
+                            want = [x for x in tun if x.instrument.upper() == I.upper() and (ns is None or strings_of(x) == ns)
+                                    and (ncs is None or courses_of(x) == ncs)]
                             ctx.check("lookup: an exact instrument name lists that instrument's matching tunings",
                                       all(any(x is r for r in rs) for x in want), {"instrument": pi, "strings": ns, "courses": ncs},
                                       len(want), len(rs), mechanism="get_tunings-complete")
@@ -141,12 +150,17 @@ def run(shard, ctx):
                             st, r = ctx.call(TU.get_tuning, pi, pd, ns, ncs)
                             ok = st == "ok" and (r is None or (
                                 r.instrument.upper().startswith(pi.upper()) and r.description.upper().startswith(pd.upper()) and
-                                (ns is None or r.count_strings() == ns) and (ncs is None or r.count_courses() == ncs)))
+                                (ns is None or strings_of(r) == ns) and (ncs is None or courses_of(r) == ncs)))
                             ctx.check("lookup: get_tuning returns only a tuning satisfying all given constraints", ok,
                                       {"instrument": pi, "description": pd, "strings": ns, "courses": ncs}, None,
                                       tname(r) if st == "ok" and r is not None else repr(r), mechanism="get_tuning")
                             cnt += 1
-            st, r = ctx.call(TU.get_tuning, I, D, t.count_strings(), t.count_courses())
+            st, c1 = ctx.call(t.count_strings)
+            st2, c2 = ctx.call(t.count_courses)
+            ctx.check("lookup: string and course counts are the number of strings and the strings per course", st == "ok" and st2 == "ok"
+                      and c1 == strings_of(t) and abs(c2 - courses_of(t)) < 1e-12, {"tuning": tname(t)}, [strings_of(t), courses_of(t)],
+                      [repr(c1), repr(c2)], mechanism="counts")
+            st, r = ctx.call(TU.get_tuning, I, D, strings_of(t), courses_of(t))
             ctx.check("lookup: a registered tuning is found by its own instrument, description, string and course count",
                       st == "ok" and r is not None and r.instrument == I, {"instrument": I, "description": D}, tname(t),
                       tname(r) if st == "ok" and r is not None else repr(r), mechanism="get_tuning-self")
